@@ -82,6 +82,8 @@ class Evaluator(Run):
                 return r
             return const(BoundMethod(base, attr))
         if base.t.kind == "rec" and attr in base.t.fields:
+            if "has_" + attr in base.t.fields:
+                self.fail_if(z3.Not(base.t.get(base.z, "has_" + attr)), "AttributeError", self.lab(node, "attr." + attr))
             return V(base.t.fields[attr], base.t.get(base.z, attr))
         if base.t.kind == "union":
             objm = [m for m in base.t.members if m.kind in ("rec",) and attr in m.fields]
@@ -903,9 +905,38 @@ class Evaluator(Run):
                 return self.ev(node.args[2], frame)
             if len(nn) == 1 and nn[0].kind == "rec" and name in nn[0].fields:
                 return V(nn[0].fields[name], nn[0].get(obj.t.proj(obj.z, nn[0]), name))
-        if obj.t.kind == "rec" and name in obj.t.fields:
-            return V(obj.t.fields[name], obj.t.get(obj.z, name))
+        if obj.t.kind == "rec":
+            return self.rec_getattr(obj, name, node, frame)
+        if obj.t.kind == "union" and any(m.kind == "rec" for m in obj.t.members):
+            # attribute of a value that may or may not be a record: only records have attributes
+            recs = [m for m in obj.t.members if m.kind == "rec"]
+            isrec = z3.Or([obj.t.is_(obj.z, m) for m in recs])
+            if len(node.args) >= 3:
+                if not self.decide(isrec, self.lab(node, "getattr-rec")):
+                    return self.ev(node.args[2], frame)
+            else:
+                self.fail_if(z3.Not(isrec), "AttributeError", self.lab(node, "getattr"))
+            p = self.project(obj, lambda t: t in recs, self.lab(node, "getattr"), exc="AttributeError")
+            return self.rec_getattr(p, name, node, frame)
         return self.ctx.call_named(self, "getattr", [obj, mk_str(name)] + [self.ev(a, frame) for a in node.args[2:]], {}, node, frame)
+
+    def rec_getattr(self, obj, name, node, frame):
+        """getattr(record, name[, default]): a field `has_<name>` marks an optional attribute"""
+        if name not in obj.t.fields:
+            if len(node.args) >= 3:
+                return self.ev(node.args[2], frame)
+            raise PyRaise(Exc("AttributeError", tag=self.lab(node, "getattr")))
+        val = V(obj.t.fields[name], obj.t.get(obj.z, name))
+        if "has_" + name in obj.t.fields:
+            has = obj.t.get(obj.z, "has_" + name)
+            if len(node.args) >= 3:
+                if self.pure:
+                    raise Unsupported("getattr default on optional record attribute in spec")
+                if not self.decide(has, self.lab(node, "getattr-has")):
+                    return self.ev(node.args[2], frame)
+            else:
+                self.fail_if(z3.Not(has), "AttributeError", self.lab(node, "getattr"))
+        return val
 
     def special_hasattr(self, node, frame):
         obj = self.ev(node.args[0], frame)
